@@ -2,7 +2,8 @@
     saveFastNodeVersion / saveNewNodes, nodedb.go SaveNode / SaveRoot / SaveFastNode /
     DeleteFastNode / setFastStorageVersionToBatch), as the stream of [Flusher.bop] that reaches
     BatchWithFlusher: the unsaved fast-index additions (sorted by key; the entry carries the
-    version being committed), the unsaved removals (sorted by key), the storage-version label,
+    version FastLife recorded for it: tree.version+1 at the time of the Set, which is 1 - not the
+    initial version - before the first commit), the unsaved removals (sorted by key), the storage-version label,
     then the new nodes in post-order with the root last (or the root record of a version
     committed without changes / of an empty tree).  Keys and values are the stored bytes
     ([DbImage]'s encoders).  [Flusher.fl_batches th (commit_bops H st)] are the physical batches
@@ -29,7 +30,7 @@ Section PhysCommit.
     let wv := working_version (ms st) in
     if skipf st then []
     else
-      map (fun a => Flusher.BSet (db_fast_key (fst a)) (encode_fast_node wv (snd (snd a)))) (adds st) ++
+      map (fun a => Flusher.BSet (db_fast_key (fst a)) (encode_fast_node (fst (snd a)) (snd (snd a)))) (adds st) ++
       map (fun r => Flusher.BDel (db_fast_key (fst r))) (rems st) ++
       [Flusher.BSet db_meta_key (fast_storage_label wv)].
 
